@@ -9,7 +9,7 @@ Import ListNotations.
 Definition btid := nat.
 
 Inductive bev :=
-| BNew (n : nat)                         (* NewWgCounter(n): count.Add(n), wg.Add(n) *)
+| BNew (n c : nat)                       (* NewWgCounter(n): count.Add(n), wg.Add(n); the stream is made with capacity c *)
 | BCloseEmpty                            (* n = 0: the constructor closes the stream *)
 | BLoad (t : btid) (v : nat)             (* count.Load (Done's load, Count(), NumPending()) *)
 | BCas (t : btid) (v : nat) (ok : bool)  (* Done: count.CompareAndSwap(v, v-1), v >= 1 *)
@@ -32,23 +32,25 @@ Record bstate := mkB {
   bcloses : nat;
   bsends : nat;
   bdones : nat;
-  brecvd : nat
+  brecvd : nat;
+  bcap : nat           (* capacity of the stream *)
 }.
 
-Definition binit : bstate := mkB 0 false 0 0 0 0 false None 0 0 0 0.
+Definition binit : bstate := mkB 0 false 0 0 0 0 false None 0 0 0 0 0.
 
 Definition bopt_is (o : option btid) (t : btid) : bool :=
   match o with Some x => Nat.eqb x t | None => false end.
 
 Definition bstep (s : bstate) (e : bev) : option bstate :=
   match e with
-  | BNew n =>
-      if created s then None
-      else Some (mkB n true n n 0 0 false None 0 0 0 0)
+  | BNew n c =>
+      (* one slot per item: an item's send never has to wait for a reader (group_job.go) *)
+      if created s || negb (Nat.leb n c) then None
+      else Some (mkB n true n n 0 0 false None 0 0 0 0 c)
   | BCloseEmpty =>
       if created s && Nat.eqb (bn s) 0 && negb (bclosed s)
       then Some (mkB (bn s) true (bcount s) (bwg s) (owe_wg s) (chlen s) true (last s)
-                     (S (bcloses s)) (bsends s) (bdones s) (brecvd s))
+                     (S (bcloses s)) (bsends s) (bdones s) (brecvd s) (bcap s))
       else None
   | BLoad t v => if created s && Nat.eqb v (bcount s) then Some s else None
   | BCas t v ok =>
@@ -56,33 +58,33 @@ Definition bstep (s : bstate) (e : bev) : option bstate :=
       then (if ok
             then Some (mkB (bn s) true (v - 1) (bwg s) (S (owe_wg s)) (chlen s) (bclosed s)
                            (if Nat.eqb v 1 then Some t else last s)
-                           (bcloses s) (bsends s) (S (bdones s)) (brecvd s))
+                           (bcloses s) (bsends s) (S (bdones s)) (brecvd s) (bcap s))
             else Some s)
       else None
   | BWgDone t =>
       match owe_wg s, bwg s with
       | S o, S w => Some (mkB (bn s) (created s) (bcount s) w o (chlen s) (bclosed s) (last s)
-                             (bcloses s) (bsends s) (bdones s) (brecvd s))
+                             (bcloses s) (bsends s) (bdones s) (brecvd s) (bcap s))
       | _, _ => None    (* 0 owed: not this code; wg = 0: negative WaitGroup counter (panic) *)
       end
   | BSend g =>
       (* the sender's own item has not called Done yet, so at least one item is outstanding;
          a send on a closed stream panics, a send on a full one blocks *)
-      if created s && Nat.ltb (bdones s) (bn s) && negb (bclosed s) && Nat.ltb (chlen s) (bn s)
+      if created s && Nat.ltb (bdones s) (bn s) && negb (bclosed s) && Nat.ltb (chlen s) (bcap s)
       then Some (mkB (bn s) true (bcount s) (bwg s) (owe_wg s) (S (chlen s)) false (last s)
-                     (bcloses s) (S (bsends s)) (bdones s) (brecvd s))
+                     (bcloses s) (S (bsends s)) (bdones s) (brecvd s) (bcap s))
       else None
   | BClose t =>
       if bopt_is (last s) t
       then (if bclosed s then None   (* close of closed channel: panic *)
             else Some (mkB (bn s) (created s) (bcount s) (bwg s) (owe_wg s) (chlen s) true None
-                           (S (bcloses s)) (bsends s) (bdones s) (brecvd s)))
+                           (S (bcloses s)) (bsends s) (bdones s) (brecvd s) (bcap s)))
       else None
   | BRecv t ok =>
       if ok
       then (match chlen s with
             | S c => Some (mkB (bn s) (created s) (bcount s) (bwg s) (owe_wg s) c (bclosed s) (last s)
-                               (bcloses s) (bsends s) (bdones s) (S (brecvd s)))
+                               (bcloses s) (bsends s) (bdones s) (S (brecvd s)) (bcap s))
             | 0 => None
             end)
       else (if bclosed s && Nat.eqb (chlen s) 0 then Some s else None)
